@@ -329,3 +329,419 @@ theorem roundsTo_between {a m b : Nat} {c : Int} {o : Nat} (h1 : a ≤ m) (h2 : 
     exact Nat.mul_le_mul_right _ (Nat.mul_le_mul_right _ h2)
 
 end GojaModel.C12
+
+namespace GojaModel.C12
+
+/-! ## bisection, scaling, same-grid part of toExponential -/
+
+theorem bisect_spec (n d : Nat) : ∀ (fuel lo hi : Nat), lo < hi → hi - lo ≤ 2 ^ fuel → hi ≤ infOrd + 1 →
+    lowerOK n d lo = true → (hi = infOrd + 1 ∨ lowerOK n d hi = false) →
+    lowerOK n d (bisect n d fuel lo hi) = true ∧ bisect n d fuel lo hi ≤ infOrd ∧
+      (bisect n d fuel lo hi = infOrd ∨ lowerOK n d (bisect n d fuel lo hi + 1) = false) := by
+  intro fuel
+  induction fuel with
+  | zero =>
+    intro lo hi hlt hsz hhi hlo hhiF
+    have : hi = lo + 1 := by simp at hsz; omega
+    subst this
+    simp only [bisect]
+    refine ⟨hlo, by omega, ?_⟩
+    rcases hhiF with h | h
+    · left; omega
+    · right; exact h
+  | succ fuel ih =>
+    intro lo hi hlt hsz hhi hlo hhiF
+    simp only [bisect]
+    by_cases hc : hi ≤ lo + 1
+    · have : hi = lo + 1 := by omega
+      subst this
+      rw [if_pos hc]
+      refine ⟨hlo, by omega, ?_⟩
+      rcases hhiF with h | h
+      · left; omega
+      · right; exact h
+    · rw [if_neg hc]
+      have hp : 2 ^ (fuel + 1) = 2 * 2 ^ fuel := by rw [Nat.pow_succ, Nat.mul_comm]
+      rw [hp] at hsz
+      generalize 2 ^ fuel = P at hsz ih
+      by_cases hm : lowerOK n d ((lo + hi) / 2) = true
+      · simp only [hm, if_true]
+        exact ih _ _ (by omega) (by omega) hhi hm hhiF
+      · have hm' : lowerOK n d ((lo + hi) / 2) = false := by
+          cases h : lowerOK n d ((lo + hi) / 2) with
+          | true => exact absurd h hm
+          | false => rfl
+        simp only [hm', Bool.false_eq_true, if_false]
+        exact ih _ _ (by omega) (by omega) (by omega) hlo (Or.inr hm')
+
+theorem infOrd_lt : infOrd + 1 ≤ 2 ^ 64 := by decide
+
+theorem upperOK_of_lowerOK_succ_false {n d k : Nat} (h : lowerOK n d (k + 1) = false) :
+    upperOK n d k = true := by
+  rw [lowerOK_false_iff] at h
+  obtain ⟨_, h⟩ := h
+  simp only [Nat.add_sub_cancel] at h
+  simp only [upperOK, Bool.or_eq_true, beq_iff_eq, decide_eq_true_eq, Bool.and_eq_true]
+  right
+  rcases h with h | ⟨h, ho⟩
+  · left; exact h
+  · right; exact ⟨h, by omega⟩
+
+/-- Multiplying both sides of the "within half a unit, tie upward" condition by `J > 0`. -/
+theorem scale_cond {p q W J : Nat} (hJ : 0 < J)
+    (h : (if q ≤ p then decide (2 * (p - q) ≤ W) else decide (2 * (q - p) < W)) = true) :
+    (q * J ≤ p * J → 2 * (p * J - q * J) ≤ W * J) ∧ (p * J < q * J → 2 * (q * J - p * J) < W * J) := by
+  constructor
+  · intro hle
+    have hqp : q ≤ p := Nat.le_of_mul_le_mul_right hle hJ
+    rw [if_pos hqp] at h
+    simp only [decide_eq_true_eq] at h
+    have := Nat.mul_le_mul_right J h
+    rw [Nat.mul_assoc, Nat.sub_mul] at this
+    exact this
+  · intro hlt
+    have hqp : ¬ q ≤ p := fun hh => by
+      have := Nat.mul_le_mul_right J hh; omega
+    rw [if_neg hqp] at h
+    simp only [decide_eq_true_eq] at h
+    have := Nat.mul_lt_mul_of_pos_right h hJ
+    rw [Nat.mul_assoc, Nat.sub_mul] at this
+    exact this
+
+/-- Same-exponent part of `exp_sound`: closest among all `n'` at the same last-digit exponent, tie → larger. -/
+theorem exp_same_grid (X fd n : Nat) (c : Int) (h : isExp X fd n c = true) :
+    10 ^ fd ≤ n ∧ n < 10 ^ (fd + 1) ∧
+    ∀ n' : Nat,
+      absDiff (n * (10 ^ c.toNat * scale)) (X * decDen c) ≤ absDiff (n' * (10 ^ c.toNat * scale)) (X * decDen c) ∧
+      (absDiff (n * (10 ^ c.toNat * scale)) (X * decDen c) = absDiff (n' * (10 ^ c.toNat * scale)) (X * decDen c)
+        → n' ≤ n) := by
+  unfold isExp at h
+  simp only [Bool.and_eq_true, decide_eq_true_eq] at h
+  obtain ⟨⟨⟨hlo, hhi⟩, hmain⟩, _⟩ := h
+  refine ⟨hlo, hhi, ?_⟩
+  intro n'
+  have e : ∀ t : Nat, t * 10 ^ c.toNat * scale = t * (10 ^ c.toNat * scale) := fun t => Nat.mul_assoc _ _ _
+  rw [e] at hmain
+  have hD : 0 < 10 ^ c.toNat * scale := Nat.mul_pos (Nat.pow_pos (by decide)) scale_pos
+  generalize 10 ^ c.toNat * scale = D at hmain hD ⊢
+  generalize X * decDen c = q at hmain ⊢
+  have hcases : n' < n ∨ n' = n ∨ n < n' := by omega
+  rcases hcases with hlt | heq | hgt
+  · have h1 : (n' + 1) * D ≤ n * D := Nat.mul_le_mul_right _ hlt
+    rw [Nat.add_mul, Nat.one_mul] at h1
+    generalize n * D = p at hmain h1 ⊢
+    generalize n' * D = p' at h1 ⊢
+    unfold absDiff
+    split at hmain <;> simp only [decide_eq_true_eq] at hmain <;> omega
+  · subst heq; exact ⟨Nat.le_refl _, fun _ => Nat.le_refl _⟩
+  · have h1 : (n + 1) * D ≤ n' * D := Nat.mul_le_mul_right _ hgt
+    rw [Nat.add_mul, Nat.one_mul] at h1
+    generalize n * D = p at hmain h1 ⊢
+    generalize n' * D = p' at h1 ⊢
+    unfold absDiff
+    split at hmain <;> simp only [decide_eq_true_eq] at hmain <;> omega
+
+end GojaModel.C12
+
+namespace GojaModel.C12
+
+/-! ## value congruence, exponent shifts, closest among the shortest (same grid) -/
+
+/-- The acceptance predicate depends only on the VALUE of the rational. -/
+theorem isNearestMag_congr {n1 d1 n2 d2 k : Nat} (h1 : 0 < d1) (h2 : 0 < d2) (he : n1 * d2 = n2 * d1) :
+    isNearestMag n1 d1 k = isNearestMag n2 d2 k := by
+  have hl : lowerOK n1 d1 k = lowerOK n2 d2 k := by
+    cases ha : lowerOK n1 d1 k with
+    | true => exact (lowerOK_true_mono h1 h2 (Nat.le_of_eq he) ha).symm
+    | false => exact (lowerOK_false_mono h1 h2 (Nat.le_of_eq he.symm) ha).symm
+  have hu : upperOK n1 d1 k = upperOK n2 d2 k := by
+    cases ha : upperOK n1 d1 k with
+    | true => exact (upperOK_true_mono h1 h2 (Nat.le_of_eq he.symm) ha).symm
+    | false => exact (upperOK_false_mono h1 h2 (Nat.le_of_eq he) ha).symm
+  simp only [isNearestMag, hl, hu, h1, h2, decide_true]
+
+theorem dec_shift_value (s : Nat) (c : Int) (j : Nat) :
+    decNum (s * 10 ^ j) (c - j) * decDen c = decNum s c * decDen (c - j) := by
+  unfold decNum decDen
+  rw [Nat.mul_assoc, Nat.mul_assoc, Nat.mul_assoc, ← Nat.pow_add, ← Nat.pow_add, ← Nat.pow_add]
+  congr 2
+  omega
+
+/-- `s × 10^c` and `(s·10^j) × 10^(c−j)` are the same number. -/
+theorem roundsTo_shift (s : Nat) (c : Int) (j o : Nat) :
+    roundsTo (s * 10 ^ j) (c - j) o = roundsTo s c o := by
+  unfold roundsTo
+  exact isNearestMag_congr (decDen_pos _) (decDen_pos _) (dec_shift_value s c j)
+
+theorem absDiff_mul (a b k : Nat) : absDiff a b * k = absDiff (a * k) (b * k) := by
+  unfold absDiff
+  rw [Nat.add_mul, Nat.sub_mul, Nat.sub_mul]
+
+theorem distTo_shift (o t : Nat) (c : Int) (j : Nat) :
+    distTo o (t * 10 ^ j) (c - j) * decDen c = distTo o t c * decDen (c - j) := by
+  unfold distTo
+  rw [absDiff_mul, absDiff_mul]
+  generalize scale = S
+  have h1 : decNum (t * 10 ^ j) (c - ↑j) * S * decDen c = decNum t c * S * decDen (c - ↑j) := by
+    have := dec_shift_value t c j
+    calc decNum (t * 10 ^ j) (c - ↑j) * S * decDen c
+        = (decNum (t * 10 ^ j) (c - ↑j) * decDen c) * S := by ac_rfl
+      _ = (decNum t c * decDen (c - ↑j)) * S := by rw [this]
+      _ = decNum t c * S * decDen (c - ↑j) := by ac_rfl
+  have h2 : magOrd o * decDen (c - ↑j) * decDen c = magOrd o * decDen c * decDen (c - ↑j) := by ac_rfl
+  rw [h1, h2]
+
+/-- Order of distances is the same at exponent `c` and, after scaling the digits by 10^j, at exponent `c − j`. -/
+theorem distTo_le_shift {o a b : Nat} {c : Int} (j : Nat) (h : distTo o a c ≤ distTo o b c) :
+    distTo o (a * 10 ^ j) (c - j) ≤ distTo o (b * 10 ^ j) (c - j) := by
+  have h1 := Nat.mul_le_mul_right (decDen (c - j)) h
+  rw [← distTo_shift, ← distTo_shift] at h1
+  exact Nat.le_of_mul_le_mul_right h1 (decDen_pos c)
+
+/-- Same-exponent geometry: if `p` is at least as close as the nearer-below grid point `m < p`, then it is at least
+as close as anything at or below `m`. -/
+theorem dist_below {o s' m p : Nat} {c : Int} (h1 : s' ≤ m) (h2 : m < p)
+    (hd : distTo o p c ≤ distTo o m c) : distTo o p c ≤ distTo o s' c := by
+  unfold distTo decNum at *
+  have e : ∀ t : Nat, t * 10 ^ c.toNat * scale = t * (10 ^ c.toNat * scale) := fun t => Nat.mul_assoc _ _ _
+  simp only [e] at hd ⊢
+  have hD : 0 < 10 ^ c.toNat * scale := Nat.mul_pos (Nat.pow_pos (by decide)) scale_pos
+  have a1 : s' * (10 ^ c.toNat * scale) ≤ m * (10 ^ c.toNat * scale) := Nat.mul_le_mul_right _ h1
+  have a2 : m * (10 ^ c.toNat * scale) < p * (10 ^ c.toNat * scale) := Nat.mul_lt_mul_of_pos_right h2 hD
+  generalize s' * (10 ^ c.toNat * scale) = x1 at *
+  generalize m * (10 ^ c.toNat * scale) = x2 at *
+  generalize p * (10 ^ c.toNat * scale) = x3 at *
+  generalize magOrd o * decDen c = q at *
+  unfold absDiff at *
+  omega
+
+/-- Same-exponent part of `closest_sound`. -/
+theorem closest_same_grid (o s k : Nat) (c : Int) (h : isClosest o s k c = true)
+    (hr : roundsTo s c o = true) :
+    (∀ s' : Nat, s < s' → roundsTo s' c o = true → distTo o s c ≤ distTo o s' c) ∧
+    (10 ^ (k - 1) < s → ∀ s' : Nat, s' < s → roundsTo s' c o = true → distTo o s c ≤ distTo o s' c) := by
+  simp only [isClosest, Bool.and_eq_true, Bool.or_eq_true, Bool.not_eq_true', decide_eq_true_eq] at h
+  obtain ⟨hup, hdn⟩ := h
+  have e : ∀ t : Nat, decNum t c * scale = t * (10 ^ c.toNat * scale) := fun t => by
+    unfold decNum; exact Nat.mul_assoc _ _ _
+  have hD : 0 < 10 ^ c.toNat * scale := Nat.mul_pos (Nat.pow_pos (by decide)) scale_pos
+  constructor
+  · intro s' hlt hr'
+    have hmid : roundsTo (s + 1) c o = true := roundsTo_between (Nat.le_succ s) hlt hr hr'
+    rcases hup with hf | hd
+    · rw [hmid] at hf; cases hf
+    · unfold distTo at hd ⊢
+      rw [e, e] at hd
+      rw [e, e]
+      have h1 : (s + 1) * (10 ^ c.toNat * scale) ≤ s' * (10 ^ c.toNat * scale) := Nat.mul_le_mul_right _ hlt
+      rw [Nat.add_mul, Nat.one_mul] at h1 hd
+      generalize s * (10 ^ c.toNat * scale) = p at hd h1 ⊢
+      generalize s' * (10 ^ c.toNat * scale) = p' at h1 ⊢
+      generalize 10 ^ c.toNat * scale = D at hd h1 hD
+      generalize magOrd o * decDen c = q at hd ⊢
+      unfold absDiff at *
+      omega
+  · intro hbig s' hlt hr'
+    rw [if_pos hbig] at hdn
+    simp only [Bool.or_eq_true, Bool.not_eq_true', decide_eq_true_eq] at hdn
+    have hmid : roundsTo (s - 1) c o = true := roundsTo_between (by omega) (Nat.sub_le s 1) hr' hr
+    rcases hdn with hf | hd
+    · rw [hmid] at hf; cases hf
+    · unfold distTo at hd ⊢
+      rw [e, e] at hd
+      rw [e, e]
+      have hs1 : s = (s - 1) + 1 := by omega
+      have h1 : s' * (10 ^ c.toNat * scale) ≤ (s - 1) * (10 ^ c.toNat * scale) := Nat.mul_le_mul_right _ (by omega)
+      have h2 : s * (10 ^ c.toNat * scale) = (s - 1) * (10 ^ c.toNat * scale) + (10 ^ c.toNat * scale) := by
+        conv => lhs; rw [hs1]
+        rw [Nat.add_mul, Nat.one_mul]
+      generalize s * (10 ^ c.toNat * scale) = p at hd h2 ⊢
+      generalize (s - 1) * (10 ^ c.toNat * scale) = p1 at hd h1 h2
+      generalize s' * (10 ^ c.toNat * scale) = p' at h1 ⊢
+      generalize 10 ^ c.toNat * scale = D at h2 hD
+      generalize magOrd o * decDen c = q at hd ⊢
+      unfold absDiff at *
+      omega
+
+end GojaModel.C12
+
+namespace GojaModel.C12
+
+/-! ## text layer: digit scanning, decimal printer, literal shapes -/
+
+theorem digitVal_digitChar {d : Nat} (h : d < 10) : digitVal (digitChar d) = d := by
+  have : d = 0 ∨ d = 1 ∨ d = 2 ∨ d = 3 ∨ d = 4 ∨ d = 5 ∨ d = 6 ∨ d = 7 ∨ d = 8 ∨ d = 9 := by omega
+  rcases this with h | h | h | h | h | h | h | h | h | h <;> subst h <;> decide
+
+/-- A character list at which a radix-10 digit scan stops. -/
+def Stops : List Char → Prop
+  | [] => True
+  | c :: _ => 10 ≤ digitVal c
+
+theorem takeDigits_stop {rest : List Char} (h : Stops rest) : takeDigits 10 rest = ([], rest) := by
+  cases rest with
+  | nil => rfl
+  | cons c cs =>
+    have : ¬ digitVal c < 10 := by simp [Stops] at h; omega
+    simp [takeDigits, this]
+
+theorem takeDigits_digits (ds : List Nat) (rest : List Char) (hd : ∀ d ∈ ds, d < 10) (h : Stops rest) :
+    takeDigits 10 (digitsStr ds ++ rest) = (ds, rest) := by
+  induction ds with
+  | nil => simpa [digitsStr] using takeDigits_stop h
+  | cons x xs ih =>
+    have hx : x < 10 := hd x (List.mem_cons_self)
+    have ih' := ih (fun d hm => hd d (List.mem_cons_of_mem _ hm))
+    simp only [digitsStr, List.map_cons, List.cons_append, takeDigits, digitVal_digitChar hx, hx, if_true]
+    simp only [digitsStr] at ih'
+    rw [ih']
+
+theorem decDigitsAux_value (fuel n : Nat) (acc : List Nat) :
+    natOfDigits 10 (decDigitsAux fuel n acc) = n * 10 ^ acc.length + natOfDigits 10 acc := by
+  induction fuel generalizing n acc with
+  | zero => simp [decDigitsAux, natOfDigits_cons]
+  | succ f ih =>
+    simp only [decDigitsAux]
+    split
+    · simp [natOfDigits_cons]
+    · rw [ih, natOfDigits_cons, List.length_cons, Nat.pow_succ]
+      have : n = 10 * (n / 10) + n % 10 := (Nat.div_add_mod n 10).symm
+      generalize n / 10 = a at *
+      generalize n % 10 = b at *
+      subst this
+      generalize 10 ^ acc.length = P
+      rw [Nat.add_mul, ← Nat.add_assoc]
+      congr 1
+      rw [Nat.mul_comm 10 a, Nat.mul_assoc, Nat.mul_comm P 10]
+
+theorem natDigits_value (n : Nat) : natOfDigits 10 (natDigits n) = n := by
+  unfold natDigits
+  rw [decDigitsAux_value]
+  simp [natOfDigits]
+
+theorem decDigitsAux_lt (fuel n : Nat) (acc : List Nat) (hn : n ≤ fuel) (ha : ∀ d ∈ acc, d < 10) :
+    ∀ d ∈ decDigitsAux fuel n acc, d < 10 := by
+  induction fuel generalizing n acc with
+  | zero =>
+    have : n = 0 := by omega
+    subst this
+    intro d hm
+    simp [decDigitsAux] at hm
+    rcases hm with h | h
+    · omega
+    · exact ha d h
+  | succ f ih =>
+    simp only [decDigitsAux]
+    split
+    · intro d hm
+      simp at hm
+      rcases hm with h | h
+      · omega
+      · exact ha d h
+    · apply ih
+      · omega
+      · intro d hm
+        simp at hm
+        rcases hm with h | h
+        · omega
+        · exact ha d h
+
+theorem natDigits_lt (n : Nat) : ∀ d ∈ natDigits n, d < 10 :=
+  decDigitsAux_lt n n [] (Nat.le_refl _) (by simp)
+
+theorem decDigitsAux_ne (fuel n : Nat) (acc : List Nat) : (decDigitsAux fuel n acc).isEmpty = false := by
+  induction fuel generalizing n acc with
+  | zero => simp [decDigitsAux]
+  | succ f ih =>
+    simp only [decDigitsAux]
+    split
+    · simp
+    · exact ih _ _
+
+theorem scanExp_expSuffix (e : Int) : scanExp (expSuffix e) = (e, true, []) := by
+  have hT : takeDigits 10 (digitsStr (natDigits e.natAbs)) = (natDigits e.natAbs, []) := by
+    have := takeDigits_digits (natDigits e.natAbs) [] (natDigits_lt _) trivial
+    simpa using this
+  have hne : (natDigits e.natAbs).isEmpty = false := decDigitsAux_ne _ _ _
+  unfold expSuffix scanExp
+  by_cases hneg : e < 0
+  · simp only [hneg, if_true, scanSign, hT, hne, natDigits_value]
+    simp
+    omega
+  · simp only [hneg, if_false, scanSign, hT, hne, natDigits_value]
+    simp
+    omega
+
+
+theorem dropZeros_cons {x : Nat} (xs : List Nat) (h : x ≠ 0) : dropZeros (x :: xs) = x :: xs := by
+  cases x with
+  | zero => exact absurd rfl h
+  | succ y => rfl
+
+theorem dropZeros_replicate (m : Nat) (ds : List Nat) : dropZeros (List.replicate m 0 ++ ds) = dropZeros ds := by
+  induction m with
+  | zero => rfl
+  | succ m ih => simpa [List.replicate_succ, dropZeros] using ih
+
+theorem zeros_eq (m : Nat) : zeros m = digitsStr (List.replicate m 0) := by
+  simp [zeros, digitsStr, digitChar]
+
+theorem digitsStr_append (a b : List Nat) : digitsStr (a ++ b) = digitsStr a ++ digitsStr b := by
+  simp [digitsStr]
+
+/-- Scanning `A tail` (no dot). -/
+theorem scanDec_nodot (A : List Nat) (tail : List Char) (e : Int) (hasE : Bool)
+    (hA : ∀ d ∈ A, d < 10) (hne : A.isEmpty = false) (hst : Stops tail)
+    (hfr : scanFrac tail = ([], false, tail)) (hex : scanExp tail = (e, hasE, [])) :
+    scanDec (digitsStr A ++ tail) =
+      some { int := A, frac := [], hasDot := false, exp := e, hasExp := hasE, rest := [] } := by
+  unfold scanDec
+  simp only [takeDigits_digits A tail hA hst, hfr, hex, hne, Bool.false_and, Bool.false_eq_true, if_false]
+
+/-- Scanning `A . B tail`. -/
+theorem scanDec_dot (A B : List Nat) (tail : List Char) (e : Int) (hasE : Bool)
+    (hA : ∀ d ∈ A, d < 10) (hB : ∀ d ∈ B, d < 10) (hne : A.isEmpty = false) (hst : Stops tail)
+    (hex : scanExp tail = (e, hasE, [])) :
+    scanDec (digitsStr A ++ '.' :: (digitsStr B ++ tail)) =
+      some { int := A, frac := B, hasDot := true, exp := e, hasExp := hasE, rest := [] } := by
+  unfold scanDec
+  have hdot : Stops ('.' :: (digitsStr B ++ tail)) := by simp [Stops]; decide
+  simp only [takeDigits_digits A _ hA hdot, scanFrac, takeDigits_digits B tail hB hst, hex, hne,
+    Bool.false_and, Bool.false_eq_true, if_false]
+
+theorem readDigits_of {body : List Char} {l : DecLit} (h : scanDec body = some l) (hr : l.rest = [])
+    (sig : List Nat) (hs : dropZeros (l.int ++ l.frac) = sig) (hne : sig.isEmpty = false) :
+    readDigits body = some (sig, (sig.length : Nat) + l.exp - (l.frac.length : Nat)) := by
+  unfold readDigits
+  simp only [h, hr, hs, hne, List.isEmpty_nil, Bool.not_true, Bool.false_eq_true, if_false]
+
+theorem scanFrac_nil : scanFrac [] = ([], false, []) := rfl
+theorem scanExp_nil : scanExp [] = (0, false, []) := rfl
+theorem scanFrac_expSuffix (e : Int) : scanFrac (expSuffix e) = ([], false, expSuffix e) := by
+  unfold expSuffix scanFrac; rfl
+theorem stops_expSuffix (e : Int) : Stops (expSuffix e) := by
+  unfold expSuffix; simp [Stops]; decide
+
+
+theorem all_lt_append {a b : List Nat} (ha : ∀ d ∈ a, d < 10) (hb : ∀ d ∈ b, d < 10) : ∀ d ∈ a ++ b, d < 10 := by
+  intro d hm
+  rcases List.mem_append.mp hm with h | h
+  · exact ha d h
+  · exact hb d h
+
+theorem all_lt_replicate (m : Nat) : ∀ d ∈ List.replicate m 0, d < 10 := by
+  intro d hm
+  have := (List.mem_replicate.mp hm).2
+  omega
+
+end GojaModel.C12
+
+namespace GojaModel.C12
+
+theorem natOfDigits_replicate_zero (r m : Nat) : natOfDigits r (List.replicate m 0) = 0 := by
+  induction m with
+  | zero => rfl
+  | succ m ih =>
+    rw [List.replicate_succ, natOfDigits_cons, ih]; simp
+
+end GojaModel.C12
